@@ -248,6 +248,7 @@ type treeCase struct {
 }
 
 type tlcJob struct {
+	seed   int64 // TLC -seed (family rand: RandomElement)
 	family string
 	size   int
 	shard  int
@@ -269,10 +270,13 @@ func genTrees(r *core.Run, jobs []tlcJob, workersEach int) []treeCase {
 	core.Parallel(len(jobs), 5, func(i int) {
 		j := jobs[i]
 		base := fmt.Sprintf("JsSyntaxGen.%s%d.cfg", j.family, j.size)
+		if j.family == "rand" {
+			base = "JsSyntaxGen.rand300.cfg" // the configuration text is generated below (Size, seed)
+		}
 		name := fmt.Sprintf("JsSyntaxGen.%s%d.s%d.cfg", j.family, j.size, j.shard)
 		var local []treeCase
 		res := tlcrun.MustHold(r, tlcrun.Options{
-			Module: "JsSyntaxGen", Config: base, Workers: workersEach, TimeoutSec: r.Pick(600, 2400),
+			Module: "JsSyntaxGen", Config: base, Workers: workersEach, TimeoutSec: r.Pick(600, 2400), Seed: j.seed,
 			XssMB: 64, HeapGB: 6,
 			Files: map[string]string{base: j.cfgText()},
 			OnCase: func(raw []byte) {
@@ -803,6 +807,10 @@ func Run(r *core.Run) {
 			jobs = append(jobs, tlcJob{family: "spine", size: 4, shard: s, shards: 4, parts: 8})
 		}
 		jobs = append(jobs, tlcJob{family: "skel", size: 2, shard: 0, shards: 1, parts: 16})
+		// random compositions of the same node classes to depth 3 (seeded)
+		for k := int64(0); k < 3; k++ {
+			jobs = append(jobs, tlcJob{family: "rand", size: 15000, shard: 0, shards: 1, parts: 8, seed: r.Seed*100 + k + 1})
+		}
 	} else {
 		for s := 0; s < 3; s++ {
 			jobs = append(jobs, tlcJob{family: "expr", size: 2, shard: s, shards: 3, parts: 8})
